@@ -42,11 +42,11 @@ def check(ctx):
     rs = returns(np_)
     ok = len(rs) == 2 and {unparse(r.value) for r in rs} == {"self.operand('npartitions')", "len(self.divisions) - 1"}
     if ok:
-        r2 = [r for r in rs if unparse(r.value) == "len(self.divisions) - 1"][0]
-        ok = any(unparse(e) == "'npartitions' in self._parameters" and pol is False for e, pol in cfg_of(np_).facts(r2))
+        r2 = [r for r in rs if eqv(r.value, "len(self.divisions) - 1")][0]
+        ok = any(eqv(e, "'npartitions' in self._parameters") and pol is False for e, pol in cfg_of(np_).facts(r2))
     ctx.ob("ALG.definitions.npartitions", np_, "npartitions = len(divisions) - 1 unless an explicit npartitions operand exists", ok)
     kd = expr.own_methods["known_divisions"]
-    ok = (all(unparse(r.value) == "len(self.divisions) > 0 and self.divisions[0] is not None" for r in returns(kd)) and bool(returns(kd)))
+    ok = (all(eqv(r.value, "len(self.divisions) > 0 and self.divisions[0] is not None") for r in returns(kd)) and bool(returns(kd)))
     ctx.ob("ALG.definitions.known", kd, "known_divisions = len(divisions) > 0 and divisions[0] is not None", ok)
     # ---------------- FromPandas
     fp = model.klass(IO, "FromPandas").own_methods["_divisions_and_locations"]
@@ -77,7 +77,7 @@ def check(ctx):
         ctx.ob("ALG.boundary-slice", bs, f"{pat.split('=', 1)[1].strip()} exactly when {flag} is {pol}", ok, "" if ok else "an end point is kept or dropped against its boundary flag: the last partition loses its maximum or a value appears in two partitions")
     r1 = find("right_index = result.index.get_slice_bound(stop, 'left')", bs)
     r2 = find("left_index = result.index.get_slice_bound(start, 'right')", bs)
-    ok = len(r1) == 1 and len(r2) == 1 and any(unparse(e) == "right_boundary" and p is False for e, p in cfg_of(bs).facts(r1[0][0])) and any(unparse(e) == "left_boundary" and p is False for e, p in cfg_of(bs).facts(r2[0][0])) and bool(find("result = result.iloc[:right_index]", bs)) and bool(find("result = result.iloc[left_index:]", bs))
+    ok = len(r1) == 1 and len(r2) == 1 and any(eqv(e, "right_boundary") and p is False for e, p in cfg_of(bs).facts(r1[0][0])) and any(eqv(e, "left_boundary") and p is False for e, p in cfg_of(bs).facts(r2[0][0])) and bool(find("result = result.iloc[:right_index]", bs)) and bool(find("result = result.iloc[left_index:]", bs))
     ctx.ob("ALG.boundary-slice.monotonic", bs, "monotonic index: exclusive right end cuts at the left bound of stop, exclusive left end at the right bound of start", ok)
     # ---------------- strict chaining
     cc = model.klass("dask/dataframe/dask_expr/_concat.py", "Concat").own_methods["_monotonic_divisions"]
@@ -87,7 +87,7 @@ def check(ctx):
     cd = model.module("dask/dataframe/dask_expr/_shuffle.py").func("_calculate_divisions")
     ps = find("presorted = M_v", cd)
     conj = [v for n_, b in ps for v in (b["M_v"].values if isinstance(b["M_v"], ast.BoolOp) else [b["M_v"]])]
-    ok = any(unparse(v) == "(maxes2 < mins2).all()" for v in conj)
+    ok = any(eqv(v, "(maxes2 < mins2).all()") for v in conj)
     ctx.ob("ORD.strict.presorted", cd, "set_index/sort_values keep the input partitions only if every maximum < the next minimum", ok)
     # ---------------- a blockwise merge with a single-partition side inherits the OTHER side's divisions only for the
     # join kinds that keep exactly that side's rows
